@@ -1202,6 +1202,71 @@ def _exc_only(cfg, a, b):
 
 
 # ---------------------------------------------------------------------------
+def _implies_nonempty_path(prog, fi, e, pol, depth=0):
+    """Does the branch outcome (e, pol) establish that <request>.opt.uri_path is non-empty?  One level of helper
+    inlining: `self.m(request)` is replaced by m's single return expression."""
+    if (chain(e) or "").endswith(".opt.uri_path"):
+        return pol
+    if isinstance(e, ast.Subscript) and (chain(e.value) or "").endswith(".opt.uri_path") and not isinstance(e.slice, ast.Slice):
+        return pol  # a component was read and is truthy: the tuple is not empty
+    if isinstance(e, ast.Compare) and len(e.ops) == 1:
+        l, r, op = e.left, e.comparators[0], e.ops[0]
+        if isinstance(l, ast.Call) and chain(l.func) == "len" and l.args and (chain(l.args[0]) or "").endswith(".opt.uri_path") and isinstance(r, ast.Constant):
+            if isinstance(op, ast.Gt) and r.value >= 0:
+                return pol
+            if isinstance(op, ast.GtE) and r.value >= 1:
+                return pol
+            if isinstance(op, ast.Eq) and r.value == 0:
+                return not pol
+        if (chain(l) or "").endswith(".opt.uri_path") and isinstance(op, (ast.Eq, ast.NotEq)) and isinstance(r, (ast.Tuple, ast.List)) and not r.elts:
+            return (not pol) if isinstance(op, ast.Eq) else pol
+    if depth == 0 and isinstance(e, ast.Call) and isinstance(e.func, ast.Attribute) and chain(e.func.value) == "self" and fi.cls is not None:
+        m = prog.lookup_method(fi.cls.qn, e.func.attr)
+        if m is not None:
+            rets = [x for x in walk_no_nested(m.node) if isinstance(x, ast.Return) and x.value is not None]
+            if len(rets) == 1:
+                v = rets[0].value
+                # conjunction / disjunction: a False `a or b` gives not a and not b; a True `a and b` gives both
+                parts = []
+                if isinstance(v, ast.BoolOp) and ((isinstance(v.op, ast.Or) and not pol) or (isinstance(v.op, ast.And) and pol)):
+                    parts = list(v.values)
+                else:
+                    parts = [v]
+                for part in parts:
+                    pp = pol
+                    while isinstance(part, ast.UnaryOp) and isinstance(part.op, ast.Not):
+                        part, pp = part.operand, not pp
+                    if _implies_nonempty_path(prog, m, part, pp, depth + 1):
+                        return True
+    return False
+
+
+@R.clause("C19.f", "the root directory itself is never a target of PUT or DELETE: every mutating sink is dominated by a test that the Uri-Path is not empty")
+def f_not_root(ctx):
+    """Added after an independently written breaking change folded the trailing-slash tests into a helper
+    `uri_path[-1:] == ("",)`, which is False for the *empty* Uri-Path: PUT then spooled its temporary file into the
+    parent of the served directory (outside the root) and, with the root given through a symlink, replaced or
+    deleted that directory entry.  With an empty path request_to_localpath returns self.root itself, whose parent
+    and whose own directory entry lie outside the root."""
+    prog = ctx.prog
+    fl = Flow(prog)
+    n = 0
+    for fi in fl.funcs:
+        if _is_sanitiser(fi):
+            continue
+        for scope in _scopes(fi):
+            muts = [(call, label) for call, paths, mut, label in fl.sinks(scope) if mut]
+            for call, label in muts:
+                n += 1
+                if scope.lam is not None:
+                    continue
+                cfg = cfg_of(fi)
+                ok = bool(cfg.locate(call)) and all(any(_implies_nonempty_path(prog, fi, e, pol) for e, pol in guard_exprs(cfg, nid)) for nid in cfg.locate(call))
+                ctx.ob("mutating operation %s is reached only for a non-empty Uri-Path (never for the root directory itself)" % label, ok, fi, call,
+                       detail=None if ok else "guards: %s" % [(stmt_text(e, 50), p) for nid in cfg.locate(call) for e, p in guard_exprs(cfg, nid)])
+    ctx.floor("mutating sinks in FileServer", n, 4)
+
+
 F = "aiocoap/cli/fileserver.py"
 # C19.a
 R.seed("C19.a", F, "            path.unlink()\n", "            (self.root / \"/\".join(request.opt.uri_path)).unlink()\n", "sink fed from request.opt.uri_path directly")
@@ -1237,3 +1302,5 @@ R.seed("C19.e", F, "class InvalidPathError(error.ConstructionRenderableError):\n
 R.seed("C19.e", F, "class InvalidPathError(error.ConstructionRenderableError):\n    code = codes.BAD_REQUEST", "class InvalidPathError(ValueError):\n    code = codes.BAD_REQUEST", "not renderable")
 R.seed("C19.e", F, "            path.unlink()\n        except FileNotFoundError:", "            path.unlink()\n        except PermissionError:", "missing file on DELETE becomes 5.00")
 R.seed("C19.e", F, "            st = path.stat()\n        except FileNotFoundError:\n            raise NoSuchFile()\n\n        etag", "            st = path.stat()\n        except FileNotFoundError:\n            raise\n\n        etag", "FileNotFoundError re-raised on GET")
+
+R.seed("C19.f", F, "    async def render_put(self, request):\n        if not self.write:\n            return aiocoap.Message(code=codes.FORBIDDEN)\n\n        if not request.opt.uri_path or not request.opt.uri_path[-1]:", "    async def render_put(self, request):\n        if not self.write:\n            return aiocoap.Message(code=codes.FORBIDDEN)\n\n        if request.opt.uri_path[-1:] == (\"\",):", "PUT with an empty Uri-Path spools next to (outside) the root")
